@@ -71,7 +71,7 @@ PROPERTIES = {
         'explanation': 'per-bunch functional postconditions (ghost cell n,x,y) and frames of every transport map',
     },
     'C15': {
-        'units': [sm.KickMapApplyTo, sm.FokkerPlanckApplyTo, sm.UpdateSM, sm.CalcCoefficiants, io.HDF5AppendTracks, mainspec.MainTrackingFile, mainloop.MainLoop, mainspec.MapDispatch, io.ProgramOptionsGetters],
+        'units': [sm.KickMapApplyTo, sm.FokkerPlanckApplyTo, sm.SourceMapApplyToAll, sm.UpdateSM, sm.CalcCoefficiants, io.HDF5AppendTracks, mainspec.MainTrackingFile, mainloop.MainLoop, mainspec.MapDispatch, io.ProgramOptionsGetters],
         'leaves': [leaf.FPApplyToLeaf, leaf.KickApplyToLeaf, leaf.PSxLeaf, leaf.PSyLeaf],
         'lemmas': [sm.lemmas_weights],
         'level': 'other',
@@ -179,10 +179,10 @@ PROPERTIES = {
         'technique': TECH,
     },
     'C17': {
-        'units': SM_KICK + SM_FP + [sm.IdentityApply, sm.KickMapApplyTo, sm.FokkerPlanckApplyTo,
+        'units': SM_KICK + SM_FP + [sm.IdentityApply, sm.KickMapApplyTo, sm.FokkerPlanckApplyTo, sm.SourceMapApplyToAll,
                                     ps.RulerCtor, ps.SimpsonWeights, ps.UpdateXProjection, ps.UpdateYProjection, ps.Integrate, ps.Normalize, ps.Average, ps.Variance, ps.Swap, ps.MakePSFromTXTLoop, ps.PhaseSpaceCtor, ps.PhaseSpaceCtor8, ps.PhaseSpaceCtor12, ps.PhaseSpaceCopyCtor, ps.CreateFromProjections, ps.Gaus,
                                     ef.PadBunchProfiles, ef.WakePotential, ef.UpdateCSR, ef.ElectricFieldCtor, ef.ElectricFieldCtor11, ef.InitWakeLossFFT,
-                                    mainspec.MainConfig, mainspec.MainTrackingFile, mainspec.MainStartDistribution, mainspec.MainMaps, mainspec.MainFields, io.HDF5FileSources, io.HDF5AppendField, io.HDF5AppendTracks, io.ReadPhaseSpace, io.ProgramOptionsGetters] + Z_UNITS,
+                                    mainspec.MainConfig, mainspec.MainTrackingFile, mainspec.MainStartDistribution, mainspec.MainMaps, mainspec.MainFields, io.HDF5FileSources, io.HDF5AppendField, io.HDF5AppendTracks, io.HDF5AppendData3f, io.HDF5AppendData2f, io.HDF5AppendData1f, io.HDF5AppendData4f, io.HDF5AppendData2a, io.HDF5AppendData3p, io.ReadPhaseSpace, io.ProgramOptionsGetters] + Z_UNITS,
         'leaves': [leaf.UpperPow2Leaf, leaf.FPApplyToLeaf, leaf.KickApplyToLeaf, leaf.PSxLeaf, leaf.PSyLeaf],
         'lemmas': [],
         'level': 'other',
@@ -197,7 +197,7 @@ PROPERTIES = {
     },
     'C19': {
         'main_scenarios': ['rfkicks'],
-        'units': [mainspec.MainWiring, mainspec.MapDispatch, mainspec.MainMaps, io.ProgramOptionsGetters, dynrf.CalcModulation, dynrf.DynRFLinearCtor, dynrf.DynRFSinCtor, dynrf.DynCalcKick, dynrf.DynApply, dynrf.GetPastModulation,
+        'units': [mainspec.MainWiring, mainspec.MapDispatch, mainspec.MainMaps, io.ProgramOptionsGetters, dynrf.CalcModulation, dynrf.DynRFLinearCtor, dynrf.DynRFSinCtor, dynrf.DynCalcKick, dynrf.DynApply, dynrf.GetPastModulation, io.HDF5AppendData2a,
                   sm.RFCalcKick, sm.RFKickMapLinearCtor, sm.RFKickMapSinCtor],
         'lemmas': [dynrf.lemmas_c19],
         'level': 'other',
@@ -235,7 +235,7 @@ PROPERTIES = {
     },
     'C14': {
         'main_scenarios': ['interrupt', 'records'],
-        'units': [mainloop.MainLoop, sig.SigintHandler, sig.SignalSetup],
+        'units': [mainloop.MainLoop, io.HDF5AppendData3f, io.HDF5AppendData4f, sig.SigintHandler, sig.SignalSetup],
         'lemmas': [],
         'level': 'other',
         'claim': 'the SIGINT handler writes Display::abort = true and nothing else; main binds SIGINT to it exactly once, before the loop, by a call that keeps it installed (so repeated interrupts are idempotent); with the abort flag modelled as a monotone flag that may become set at every read, the loop can only be left at its head (a step in progress completes), the final-record block then appends exactly one record for the state reached when a file is open, '
@@ -247,7 +247,7 @@ PROPERTIES = {
     },
     'C10': {
         'main_scenarios': ['records'],
-        'units': [mainloop.MainLoop, mainspec.MainWiring, mainspec.MapDispatch, mainspec.MainUnits, io.HDF5FileUnits, ps.PhaseSpaceCtor12, ps.RulerCtor, ef.ElectricFieldScale, io.ProgramOptionsGetters, io.ProgramOptionsSave, ps.UpdateXProjection, ps.UpdateYProjection, ps.Integrate, ps.Variance, ef.WakePotential, ef.UpdateCSR, io.HDF5FileSources, io.HDF5AppendField, io.HDF5AppendTracks, io.ReadPhaseSpace, io.MakePSFromHDF5],
+        'units': [mainloop.MainLoop, mainspec.MainWiring, mainspec.MapDispatch, mainspec.MainUnits, io.HDF5FileUnits, ps.PhaseSpaceCtor12, ps.RulerCtor, ef.ElectricFieldScale, io.ProgramOptionsGetters, io.ProgramOptionsSave, ps.UpdateXProjection, ps.UpdateYProjection, ps.Integrate, ps.Variance, ef.WakePotential, ef.UpdateCSR, io.HDF5FileSources, io.HDF5AppendField, io.HDF5AppendTracks, io.HDF5AppendData3f, io.HDF5AppendData2f, io.HDF5AppendData1f, io.HDF5AppendData4f, io.HDF5AppendData2a, io.HDF5AppendData3p, io.ReadPhaseSpace, io.MakePSFromHDF5],
         'lemmas': [],
         'level': 'other',
         'claim': 'partial: every record of a multi-row dataset takes row b from row b of its source (dataset extents vs buffer layout; for /CSR/Spectrum proved on the row copy of append(ElectricField*)) and no append reads beyond its source buffer; at every output event and at exit the CSR, wake-potential and particle datasets receive as many records as the time axis; the time value of the final record is simulationstep/steps; the derived quantities appended are the ones '
